@@ -151,19 +151,19 @@ Definition nodes (E : list (A * A * bool)) : list A :=
 (* atoms reachable from x by one or more edges *)
 Definition reach (E : list (A * A * bool)) (x : A) : option (list A) :=
   close_iter (2 + length (nodes E)) E (dedup (succs E x)).
-(* no negative edge h -neg-> b with b = h or b reaching h *)
+(* the atoms that occur negated *)
+Definition neg_targets (E : list (A * A * bool)) : list A :=
+  dedup (map (fun e => snd (fst e)) (filter (fun e : A * A * bool => snd e) E)).
+(* is there a negative edge h -neg-> b with h = b or b reaching h ? *)
+Definition closes_neg_cycle (E : list (A * A * bool)) (b : A) (R : list A) : bool :=
+  existsb (fun e : A * A * bool => snd e && eqb (snd (fst e)) b && (eqb (fst (fst e)) b || mem (fst (fst e)) R)) E.
+(* no cycle through a negative edge *)
 Definition neg_cycle_free_E (E : list (A * A * bool)) : option bool :=
-  fold_right (fun (e : A * A * bool) (r : option bool) =>
-     match r with
-     | None => None
-     | Some ok =>
-       if snd e then
-         match reach E (snd (fst e)) with
-         | None => None
-         | Some R => Some (ok && negb (eqb (snd (fst e)) (fst (fst e)) || mem (fst (fst e)) R))
-         end
-       else Some ok
-     end) (Some true) E.
+  fold_right (fun (b : A) (r : option bool) =>
+     match r, reach E b with
+     | Some ok, Some R => Some (ok && negb (closes_neg_cycle E b R))
+     | _, _ => None
+     end) (Some true) (neg_targets E).
 Definition neg_cycle_free (cs : list (clause A)) : option bool := neg_cycle_free_E (edges cs).
 
 (* the dependency cone of the goals: the goals and everything reachable from them *)
